@@ -83,6 +83,7 @@ pub fn run(base: Instant, c: &Case, dump: bool) -> Out {
         };
         let new2 = port_only(genuine, 200);
         let mut acted = false;
+        let mut held: Option<crate::sim::Flight> = None;
         let mut second = false;
         let mut t_spoof: Option<Duration> = None;
         let mut pto_bound = Duration::ZERO;
@@ -97,7 +98,17 @@ pub fn run(base: Instant, c: &Case, dump: bool) -> Out {
                 acted = true;
                 let e0 = p.w.emitted;
                 if let Some((rel, alt)) = c.dev {
-                    if rel >= 1000 {
+                    if rel == 2000 {
+                        // the newest datagram the client sent from its old address is held back until
+                        // right behind the first one from the new address: adjacent packet numbers
+                        // arrive swapped
+                        let (from, to) = (p.w.nodes[CLIENT].addr, p.w.nodes[SERVER].addr);
+                        if let Some(seq) = p.w.net.iter().filter(|f| f.src == from && f.dst == to).map(|f| f.seq).max() {
+                            if let Some(pos) = p.w.net.iter().position(|f| f.seq == seq) {
+                                held = Some(p.w.net.remove(pos));
+                            }
+                        }
+                    } else if rel >= 1000 {
                         // reordering across the migration: the newest datagrams the client sent from its
                         // old address are still in flight and arrive 40 ms late, after the first ones
                         // from the new address
@@ -189,6 +200,13 @@ pub fn run(base: Instant, c: &Case, dump: bool) -> Out {
             }
             if p.w.steps > 60_000 {
                 break;
+            }
+            if held.is_some() && p.w.recs.iter().rev().take(6).any(|r| matches!(r, Rec::Deliver { node, src, routed: Routed::Conn(_), .. } if *node == SERVER && *src == new1)) {
+                let mut f = held.take().unwrap();
+                f.at = p.w.t + Duration::from_micros(200);
+                f.seq = p.w.seq;
+                p.w.seq += 1;
+                p.w.net.push(f);
             }
             match p.w.next_event() {
                 None => break,
@@ -428,7 +446,7 @@ pub fn main(args: &Args) -> ! {
     let mut rep = Report::new("C15", args, "fault_enumeration");
     let thorough = args.tier == Tier::Thorough;
     let dl = deadline(if thorough { 1500 } else { 50 });
-    rep.rule = "E3/E2 on real endpoints with data flowing both ways (W2), in bulk upstream (W6) or downstream (W15: the migrating client only acknowledges) and CID rotation on: at EVERY step index after the handshake the client's source address changes (port only on IPv4, port only on IPv6, full address change, full address change to a path with 60 / 250 ms more one-way delay), a second migration follows after several gaps (also before the first is validated), an attacker delivers a copy of a genuine client datagram from a third address ahead of the original (client continuing / client silent afterwards), the server has migration disabled, or server datagrams reach the client from a foreign address; each combined with every single drop/dup/delay of one of the next 8 datagrams (those carrying PATH_CHALLENGE / PATH_RESPONSE), and with the newest one / two datagrams the client had sent from its old address arriving 40 ms late, behind the first ones from the new address. Oracles: once a PATH_RESPONSE echoing a challenge sent to the new address was delivered the server reports and uses only the new address and the workload completes; before that the 3x byte ledger bounds what goes there and challenge/response datagrams are >= 1200 bytes; a spoofed path is abandoned within 3 PTO, a genuine slower path that keeps answering is not abandoned; with migration not permitted nothing is sent to, and no data accepted from, the other address. Non-trivial = distinct trace hashes of runs in which the address event happened.".into();
+    rep.rule = "E3/E2 on real endpoints with data flowing both ways (W2), in bulk upstream (W6) or downstream (W15: the migrating client only acknowledges) and CID rotation on: at EVERY step index after the handshake the client's source address changes (port only on IPv4, port only on IPv6, full address change, full address change to a path with 60 / 250 ms more one-way delay), a second migration follows after several gaps (also before the first is validated), an attacker delivers a copy of a genuine client datagram from a third address ahead of the original (client continuing / client silent afterwards), the server has migration disabled, or server datagrams reach the client from a foreign address; each combined with every single drop/dup/delay of one of the next 8 datagrams (those carrying PATH_CHALLENGE / PATH_RESPONSE), and with the newest one / two datagrams the client had sent from its old address arriving 40 ms late, behind the first ones from the new address, or held back until right behind the first datagram from the new address (adjacent packet numbers swapped). Oracles: once a PATH_RESPONSE echoing a challenge sent to the new address was delivered the server reports and uses only the new address and the workload completes; before that the 3x byte ledger bounds what goes there and challenge/response datagrams are >= 1200 bytes; a spoofed path is abandoned within 3 PTO, a genuine slower path that keeps answering is not abandoned; with migration not permitted nothing is sent to, and no data accepted from, the other address. Non-trivial = distinct trace hashes of runs in which the address event happened.".into();
     let mut cases = vec![];
     // step counts of the baselines
     let mut steps_of = BTreeMap::new();
@@ -448,7 +466,7 @@ pub fn main(args: &Args) -> ! {
 
                 cases.push(Case { v4, wl, kind: k.clone(), at, dev: None });
                 if !v4 && matches!(k, Kind::Rebind { .. }) {
-                    for late in [1u64, 2] {
+                    for late in [1u64, 2, 1000] {
                         cases.push(Case { v4, wl, kind: k.clone(), at, dev: Some((1000 + late, 0)) });
                     }
                 }
@@ -474,7 +492,7 @@ pub fn main(args: &Args) -> ! {
                 }
                 cases.push(Case { v4, wl: Wl::W15, kind: k.clone(), at, dev: None });
                 if !v4 && matches!(k, Kind::Rebind { .. }) {
-                    for late in [1u64, 2] {
+                    for late in [1u64, 2, 1000] {
                         cases.push(Case { v4, wl: Wl::W15, kind: k.clone(), at, dev: Some((1000 + late, 0)) });
                     }
                 }
